@@ -514,4 +514,150 @@ example : nnlsWrap (α := ℚ) true (fun _ _ => ([0], 0)) 1 [[3]] [0] 1 (some [[
 /-- the degenerate normaliser: an all-zero (or all non-positive) measurement gives `vmax = 0` -/
 example : maxOf (stackD (α := ℚ) 2 [0, -1, 0]) = 0 := nnls_norm_degenerate 2 (by decide) _ (by decide +kernel)
 
+/-! ## Part 4 — proof-deepening pass -/
+
+section deepen
+variable (n : Nat) (W : List (List α)) (b : List α) (ω : α) (lap : Option (List (List α) × α)) (tol : α)
+
+/-- **fixed points of `invert_sart`, exactly** : for `ω > 0` a non-negative `x` is left unchanged by a sweep iff, in every
+cell that is seen by a ray, the back-projected weighted residual vanishes where `x_j > 0` and is `≤ 0` where `x_j = 0` —
+the KKT conditions of `min ½ Σ_k (b_k − (Wx)_k)² / W_{k⊕}` over `x ≥ 0`.  (Consistency `W x = b` is sufficient —
+`sart_fixed_point` — but *not* necessary: see the example below; "fixed point ⇔ consistency" is false for the model and
+for the code.) -/
+theorem sart_fixed_point_iff (x : List α) (hx : x.length = n) (hb : b.length = W.length)
+    (hx0 : ∀ v ∈ x, 0 ≤ v) (hω : 0 < ω) :
+    sweepFull n W b ω none x = x ↔
+      ∀ j, j < n → 0 < colSum W j →
+        (0 < x.getD j 0 → backProj W b x j = 0) ∧ (x.getD j 0 = 0 → backProj W b x j ≤ 0) := by
+  rw [list_eq_iff_getD n _ _ (by simp [sweepFull]) hx]
+  apply forall_congr'; intro j
+  apply imp_congr_right; intro hj
+  rw [sart_formula n W b ω none x j hj hb, penaltyAt_none, sub_zero]
+  have hv := getD_nonneg x hx0 j
+  show _ ↔ (0 < colSum W j → _)
+  unfold colSum backProj
+  by_cases hc : 0 < (W.map (fun r => r.getD j 0)).sum
+  · simp only [hc, if_true, forall_const]
+    exact clip_fixed_iff _ _ _ hv (div_pos hω hc)
+  · simp only [hc, if_false, IsEmpty.forall_iff, iff_true]
+    exact max_eq_right hv
+
+/-- consistency implies the fixed-point conditions (the direction the property text states), now as a corollary -/
+theorem sart_consistent_is_kkt (x : List α) (hx : x.length = n) (hsol : matVec W x = b) (hx0 : ∀ v ∈ x, 0 ≤ v) (hω : 0 < ω) :
+    ∀ j, j < n → 0 < colSum W j →
+      (0 < x.getD j 0 → backProj W b x j = 0) ∧ (x.getD j 0 = 0 → backProj W b x j ≤ 0) :=
+  (sart_fixed_point_iff n W b ω x hx (by rw [← hsol]; simp) hx0 hω).mp
+    (sart_fixed_point n W b ω none x hx hsol hx0 (fun _ _ => rfl))
+
+/-- the last entry of the returned convergence list is the documented measure of the *returned* solution -/
+theorem sart_conv_last (expm1 : α) (guess : Guess α) (maxIt : Nat) (hit : 0 < maxIt) (hbb : dot b b ≠ 0) (xs cs : List α)
+    (h : sartRun expm1 n W lap b guess maxIt ω tol = .ok (xs, cs)) :
+    cs.getLast? = some ((dot b b - normSq (matVec W xs)) / dot b b) := by
+  obtain ⟨N, _, h3, h4, h5, _⟩ := sart_stops n W b ω lap tol expm1 guess maxIt hbb xs cs h
+  have hN : 0 < N := by rcases h5 with h5 | h5 <;> omega
+  obtain ⟨N', rfl⟩ := Nat.exists_eq_succ_of_ne_zero hN.ne'
+  rw [h4, h3, List.range_succ, List.map_append]
+  simp [convAt]
+
+/-! ### argument normalisation of `initial_guess` (sart.pyx:81-86) -/
+
+/-- a scalar guess — the exact zero included — seeds every cell with that value (it is *not* replaced by the default) -/
+theorem initSolution_scalar (expm1 v : α) : initSolution expm1 n (.scalar v) = List.replicate n v := by
+  simp [initSolution]
+
+theorem initSolution_none (expm1 : α) : initSolution expm1 n (Guess.none : Guess α) = List.replicate n expm1 := by
+  simp [initSolution]
+
+/-- `initial_guess=0.0` and `initial_guess=None` seed different vectors (whenever there is a cell) -/
+theorem initSolution_zero_ne_default (expm1 : α) (he : expm1 ≠ 0) (hn : 0 < n) :
+    initSolution expm1 n (.scalar 0) ≠ initSolution expm1 n (Guess.none : Guess α) := by
+  rw [initSolution_scalar, initSolution_none]
+  obtain ⟨k, rfl⟩ := Nat.exists_eq_succ_of_ne_zero hn.ne'
+  intro h
+  rw [List.replicate_succ, List.replicate_succ, List.cons.injEq] at h
+  exact he h.1.symm
+
+/-- representation independence of the guess: a scalar is the constant array, `None` is the scalar `exp(−1)` -/
+theorem sart_scalar_guess (expm1 v : α) (maxIt : Nat) :
+    sartRun expm1 n W lap b (.scalar v) maxIt ω tol = sartRun expm1 n W lap b (.array (List.replicate n v)) maxIt ω tol := by
+  simp [sartRun, initSolution]
+
+theorem sart_default_guess (expm1 : α) (maxIt : Nat) :
+    sartRun expm1 n W lap b .none maxIt ω tol = sartRun expm1 n W lap b (.scalar expm1) maxIt ω tol := by
+  simp [sartRun, initSolution]
+
+/-- with `max_iterations = 0` the solver returns the seed itself and an empty convergence list -/
+theorem sart_zero_iterations (expm1 : α) (guess : Guess α) (hlen : (initSolution expm1 n guess).length = n) :
+    sartRun expm1 n W lap b guess 0 ω tol = .ok (initSolution expm1 n guess, []) := by
+  simp [sartRun, hlen, sartLoop]
+
+/-! ### aliasing of an array `initial_guess` (as-is; outside the property text, recorded) -/
+
+theorem iter_add (x0 : List α) (N M : Nat) :
+    iter n W b ω lap x0 (N + M) = iter n W b ω lap (iter n W b ω lap x0 N) M := by
+  induction M with
+  | zero => rfl
+  | succ k ih =>
+    show sweepFull n W b ω lap (iter n W b ω lap x0 (N + k)) = sweepFull n W b ω lap (iter n W b ω lap (iter n W b ω lap x0 N) k)
+    rw [ih]
+
+/-- only an array guess is ever written to, and it then holds exactly the returned solution -/
+theorem guessAfter_spec (g : Guess α) (r : Except Err (List α × List α)) :
+    (∀ xs cs, (∃ x0, g = .array x0) → r = .ok (xs, cs) → guessAfter g r = .array xs) ∧
+    ((∀ x0, g ≠ .array x0) → guessAfter g r = g) ∧
+    (∀ e, r = .error e → guessAfter g r = g) := by
+  refine ⟨?_, ?_, ?_⟩
+  · rintro xs cs ⟨x0, rfl⟩ rfl; rfl
+  · intro h
+    cases g with
+    | array x0 => exact absurd rfl (h x0)
+    | none => cases r <;> rfl
+    | scalar v => cases r <;> rfl
+  · rintro e rfl
+    cases g <;> rfl
+
+/-- consequence of the aliasing: calling the solver again with the (overwritten) array resumes the iteration — the second
+result is a later iterate of the *original* guess, not a repetition of the first call -/
+theorem sart_resume (expm1 : α) (x0 : List α) (it1 it2 : Nat) (hbb : dot b b ≠ 0) (xs cs ys ds : List α)
+    (h1 : sartRun expm1 n W lap b (.array x0) it1 ω tol = .ok (xs, cs))
+    (h2 : sartRun expm1 n W lap b (guessAfter (.array x0) (.ok (xs, cs))) it2 ω tol = .ok (ys, ds)) :
+    ∃ N M, N ≤ it1 ∧ M ≤ it2 ∧ xs = iter n W b ω lap x0 N ∧ ys = iter n W b ω lap x0 (N + M) := by
+  obtain ⟨N, hN, hx, _⟩ := sart_stops n W b ω lap tol expm1 (.array x0) it1 hbb xs cs h1
+  obtain ⟨M, hM, hy, _⟩ := sart_stops n W b ω lap tol expm1 _ it2 hbb ys ds h2
+  refine ⟨N, M, hN, hM, hx, ?_⟩
+  rw [iter_add, ← (show xs = iter n W b ω lap x0 N from hx)]
+  exact hy
+
+end deepen
+
+/-- a fixed point that is not a solution: `W = [1;1]`, `b = (0,2)`, `x = 1` — the residuals cancel in the back-projection -/
+example : sweepFull (α := ℚ) 1 [[1],[1]] [0,2] 1 none [1] = [1] ∧ matVec (α := ℚ) [[1],[1]] [1] ≠ [0,2] := by
+  constructor <;> decide +kernel
+
+/-- the hypotheses of `sart_fixed_point_iff` are satisfiable and its right-hand side holds on that instance -/
+example : ∀ j, j < 1 → 0 < colSum (α := ℚ) [[1],[1]] j →
+    (0 < ([1] : List ℚ).getD j 0 → backProj (α := ℚ) [[1],[1]] [0,2] [1] j = 0) ∧
+      (([1] : List ℚ).getD j 0 = 0 → backProj (α := ℚ) [[1],[1]] [0,2] [1] j ≤ 0) :=
+  (sart_fixed_point_iff (α := ℚ) 1 [[1],[1]] [0,2] 1 [1] rfl rfl (by decide +kernel) one_pos).mp (by decide +kernel)
+
+/-- … and a non-fixed point is detected by it: at `x = 0` the residual is positive -/
+example : sweepFull (α := ℚ) 1 [[1],[1]] [0,2] 1 none [0] ≠ [0] := by decide +kernel
+
+/-- the exact-zero scalar guess runs as the zero array … -/
+example : sartRun (1/3 : ℚ) 2 [[1,2],[0,1],[1,1]] none [1,2,3] (.scalar 0) 1 1 (1/10000)
+    = sartRun (1/3 : ℚ) 2 [[1,2],[0,1],[1,1]] none [1,2,3] (.array [0,0]) 1 1 (1/10000) :=
+  sart_scalar_guess 2 _ _ _ _ _ _ 0 1
+
+/-- … and is not the default seed -/
+example : initSolution (1/3 : ℚ) 2 (.scalar 0) ≠ initSolution (1/3 : ℚ) 2 Guess.none :=
+  initSolution_zero_ne_default 2 (1/3) (by norm_num) (by decide)
+
+/-- two calls of one iteration each on the aliased array give the two-iteration result of the first example -/
+example : (sartRun (1/3 : ℚ) 2 [[1,2],[0,1],[1,1]] none [1,2,3]
+      (guessAfter (.array [1,1]) (sartRun (1/3 : ℚ) 2 [[1,2],[0,1],[1,1]] none [1,2,3] (.array [1,1]) 1 1 (1/10000))) 1 1 (1/10000)).toOption.map
+    (fun r => r.1) = some [27/32, 69/64] := by decide +kernel
+
+example : ((sartRun (1/3 : ℚ) 2 [[1,2],[0,1],[1,1]] none [1,2,3] (.scalar 1) 2 1 (1/10000)).toOption.map
+    (fun r => r.2.getLast?)) = some (some ((14 - normSq (matVec [[1,2],[0,1],[1,1]] [27/32, 69/64])) / 14)) := by decide +kernel
+
 end Cherab.Props.C11
